@@ -22,45 +22,87 @@ def canon_answer(a):
     return a
 
 
-LEVEL_TEXT = ("Machine-checked Coq theorems (no size bound): the three code generators of the macros (u32 const expression, "
-              "from_le_bytes of a byte array, static word arrays for 16/32/64-bit words with their LEN and the padding) build "
-              "exactly the parsed magnitude and satisfy from_static_words' assertions; the float and ratio generators preserve "
-              "(sign, significand, exponent, precision) / (numerator, denominator) outside two listed precision classes; the token "
-              "loops of parse_integer/parse_ratio (as repaired) accept exactly the literal grammar and read every literal as the "
-              "grammar does, fbig!'s own sign handling likewise. "
-              "Tie to the code: the macro front ends of the working tree are compiled into the harness and run on generated "
-              "literals; a generated crate of real macro invocations is compiled with rustc and run. PARTIAL: rustc's lexer, "
-              "const evaluation, hygiene and the compile errors themselves are observed, not modelled.")
+# round 3: the quote! templates and guards of the code generators (macros/src/parse/int.rs, float.rs, ratio.rs) are re-read
+# into coq/gen/LitTemplates.v when this plug-in is imported, i.e. before the proof phase of every run (tools/check.py has no
+# hook between plug-in load and the Coq build; tools/translate.py is shared).  Macro/LitTemplateProofs.v proves that the rows
+# selected by the guards call the constructors the model's shapes stand for (pinned C20_templates_*).  Unparseable source is
+# not an alarm: the committed copy stays (marked STALE), the status is reported in the evidence.
+import sys
+sys.path.insert(0, os.path.join(core.ROOT, "tools"))
+try:
+    import translate_c20_r3
+    TEMPLATES_STATUS = translate_c20_r3.generate(core.REPO, os.path.join(core.COQ, "gen"))
+except Exception as _ex:  # the generator itself broke: same fallback as an unparseable source
+    TEMPLATES_STATUS = "unparsed generator-failed: %s" % str(_ex)[:200]
+if os.path.realpath(core.REPO) != os.path.realpath("/repo") and "VERIF_COQ" not in os.environ:
+    import atexit
+
+    def _restore_templates():
+        try:
+            translate_c20_r3.generate("/repo", os.path.join(core.COQ, "gen"))
+        except Exception:
+            pass
+
+    atexit.register(_restore_templates)
+
+
+LEVEL_TEXT = ("Machine-checked Coq theorems (no size bound). (1) Whole macros relative to the GRAMMAR VALUE of the literal: ubig!/ibig! "
+              "(token loop -> C07's as-is parser for any host word size -> generator -> emitted constructor for 16/32/64-bit targets) compile "
+              "iff the tokens are a literal [+|-]? value [base N]? and then build sign * positional value of the written digits, which is "
+              "what the run-time parser returns for the same text; fbig!/dbig! (text of the tokens -> FBig::from_str as C08 models it -> "
+              "generator -> constructor) build the written significand, exponent and digit count for every literal of C08's grammar "
+              "outside two listed precision classes, and compile nothing else; rbig! builds the components the run-time ratio parser "
+              "(rational/src/parse.rs over C07's parsers, C04's reduce/reduce2) builds from the same text, equal in value to the written "
+              "fraction, positive denominator, lowest terms. (2) Token reconstruction: a model of the lexer (proc_macro2 fallback = rustc's "
+              "rules for identifiers, number literals with prefixes/fractions/exponents/suffixes, punctuation) - the tokens joined are the "
+              "text without white space, nothing dropped or re-ordered; the float macros build the same float however the text is cut "
+              "(`1e5` | `1.` `e5` | `0x1` `.` `8p` `-` `3`). (3) The three code generators (u32 const expression, from_le_bytes, static "
+              "word arrays for 16/32/64-bit words with LEN and padding) build the parsed magnitude and satisfy from_static_words' "
+              "assertions; (4) the quote! templates and guards, regenerated from the source on every run, select the constructors and "
+              "arguments the model's shapes stand for. "
+              "Tie to the code: the macro front ends of the working tree are compiled into the harness and run on generated literals "
+              "(model fidelity of lexer model, end-to-end as-is models and run-time parser models reported per case); a generated crate "
+              "of real macro invocations is compiled with rustc and run. PARTIAL: rustc's own lexer (only its proc_macro2 transcription "
+              "is modelled; the crate phase observes rustc), const evaluation, hygiene and the compile errors themselves are observed.")
 LEVEL_NOTE = ("Trusted: Coq kernel, extraction incl. FastZ.v, zarith, harness (its interpreter of the emitted token stream), "
-              "proc_macro2's fallback lexer in the harness phase, rustc/cargo in the crate phase. The meaning of digit strings is "
-              "C07's specification (Int/IoSpec.v); for floats the reference value and precision is the run-time parser's answer "
-              "on the same text (as the property words it), the float text grammar itself belongs to C08.")
-TECHNIQUE = "Coq proof of generator/constructor models + extracted-model correspondence run on the compiled-in macro front ends + compiled crate of real macro invocations"
+              "proc_macro2's fallback lexer in the harness phase (now also modelled: Macro/LitLexModel.v, compared on every case), "
+              "rustc/cargo in the crate phase. The run-time parsers are no longer black boxes: integers are C07's as-is model "
+              "(proved equal to the grammar for any word size), floats C08's fbig_from_str_asis (proved iff the grammar), ratios "
+              "C04's constructors plus a transcription of rational/src/parse.rs; C07/C08/C04 tie those models to the code in their "
+              "own runs, C20 additionally compares them with the harness' run-time answers.")
+TECHNIQUE = "Coq proof of end-to-end macro models over the cited parser models (C07/C08/C04), a lexer model and regenerated code-generator templates + extracted-model correspondence run on the compiled-in macro front ends + compiled crate of real macro invocations"
 RULE = ("cases = macro {ubig,ibig,fbig,dbig,rbig} x {plain, static_} x {dashu_*, dashu:: (embedded) paths} x literal form "
         "{decimal, 0b/0o/0x prefix, `base N` for N in 2..36, underscores, sign tokens glued or spaced, binary/hex float with "
         "b/p/@ exponents, decimal float with e/E/@ exponents, fraction with optional denominator, ~ marker} x magnitude classes "
         "{0, 1, <2^32, 2^32-1, 2^32, 2^32+1, 63/64/65, 127/128/129, 191/192/193 bits, byte-length boundaries 8k-1/8k/8k+1, "
         "multi-word up to 1000 (thorough 4000) bits; all-ones, powers of two, zero low words, random} plus token sequences "
-        "outside the grammar (repeated signs, missing/dangling `/`, stray tokens, groups, bad radix, invalid digits). "
-        "A case is non-trivial when the token loop model and the generator model were both evaluated on it.")
-EXPLANATION = ("Theorems (coq/props/C20.v) are about Macro/LitModel.v: quote_words/le_bytes_to_array/from_static_words, the "
-               "integer, float and ratio generator selection and the constructors the emitted code calls, and the token loops. "
+        "outside the grammar (repeated signs, missing/dangling `/`, stray tokens, groups, bad radix, invalid digits) and texts "
+        "the lexer cuts in unexpected places (`1.e5`, `0x1.8p-3`, `1.5e+`, `12e`, exponent signs as punctuation, blanks between "
+        "the pieces). A case is non-trivial when the token loop model and the generator model were both evaluated on it; "
+        "asis=same when the lexer model reproduces the tokens, the end-to-end model the built value or refusal, and the run-time "
+        "parser model the harness' run-time answer.")
+EXPLANATION = ("Theorems (coq/props/C20.v, 45) are about Macro/LitModel.v (generators, constructors, token loops), Macro/LitRefModel.v "
+               "(the macros end to end over Int/IoModel.v, Float/PartsConstModel.v, Ratio/RatArithModel.v), Macro/LitLexModel.v (lexer) "
+               "and coq/gen/LitTemplates.v (regenerated templates). "
                "Every run pushes generated literals through the front ends of the working tree (compiled into the harness), "
                "interprets the emitted token stream by generator shape, builds the value with the real constructors and lets the "
                "oracle (the extracted Coq model) judge tokens -> reading -> value -> shape -> built value, including rejected "
-               "literals; then a crate of real invocations of all ten macros (and their dashu:: re-exports) is compiled against "
+               "literals, and compare the lexer model, the end-to-end as-is models and the run-time parser models with the "
+               "implementation; then a crate of real invocations of all ten macros (and their dashu:: re-exports) is compiled against "
                "the working tree: invocations that must not compile are checked to fail with a macro panic, the others are run "
                "and compared with the front-end answers and with run-time parsing.")
 TRUSTED_BASE = [
-    "Coq 8.16.1 kernel; vm_compute only in the *_refuted witnesses and non-vacuity examples",
+    "Coq 8.16.1 kernel; vm_compute only in the *_refuted witnesses, non-vacuity examples and the finite flag combinations of the template theorems",
     "extraction: ExtrOcamlBasic + ExtrOcamlZBigInt + coq/extract/FastZ.v; OCaml 4.13.1 + zarith, oracle/common.ml, oracle/driver_c20.ml",
     "harness/src/bin/c20.rs: includes macros/src/parse/*.rs of the working tree, interprets the emitted token stream by matching the generator shapes (asserting every structural detail it relies on) and calls the real constructors",
-    "proc_macro2 (fallback mode) as lexer in the harness phase; rustc 1.95 / cargo in the crate phase",
-    "Int/IoSpec.v (C07) as the meaning of digit strings with radix prefixes; the run-time float parser as reference for float literals",
+    "proc_macro2 (fallback mode) as lexer in the harness phase (transcribed in Macro/LitLexModel.v and compared per case); rustc 1.95 / cargo in the crate phase",
+    "tools/translate_c20_r3.py: reads the quote! bodies, guards and let-bindings of the seven generator functions into coq/gen/LitTemplates.v; the reading of a row's calls as a model shape (int_calls / fbin_calls / fdec_calls / part_calls) is hand-written",
+    "the parser models of C07 (Int/IoModel.v), C08 (Float/TextIoModel.v, PartsConstModel.v) and C04 (Ratio/RatArithModel.v) are tied to the code by those properties' own runs",
 ]
 ASSUMPTIONS = [
-    "the harness is built with 64-bit and with 32-bit words (force_bits) and both builds must answer identically; the 16-bit selector of the static arrays is checked from the emitted arrays against the model (and proved for all three sizes), not executed",
+    "the harness is built with 64-bit and with 32-bit words (force_bits) and both builds must answer identically; the 16-bit selector of the static arrays is checked from the emitted arrays against the model (and proved for all three sizes), not executed: dashu-int does not compile with force_bits=\"16\"",
     "rustc's const evaluation of the emitted expressions agrees with run-time evaluation (observed in the crate phase for every literal of the crate)",
+    "rustc's lexer cuts the literal texts as its proc_macro2 transcription does (observed in the crate phase; where rustc refuses a text the fallback lexer accepts, e.g. `12e`, the invocation is a compile error)",
 ]
 
 DIG = "0123456789abcdefghijklmnopqrstuvwxyz"
@@ -396,7 +438,10 @@ def gen_fdec_case(rng, tier):
 
 BAD_FLOAT = ["1.5e", "1..5", ".", "1.5.2", "--1", "-+1", "+-1", "1e5", "0x", "_", "__1", "1_", "1._5", "1.5e1_0", "1.5e+", "(1.5)", "1,5",
              "1.5 2", "0x1.8", "_0x1.8p3", "0x1p", "1b", "1 b 3", "1.5 e 3", "1 . 5", "12 .5", "0", "0.00", "-0", "-0.0", "000", "0e5", "0.0e-7",
-             "1e99999999999999999999", "0x0p5", "0x.0", "5e-3", "1@5", "1.0@-5", "1p3", "0x1b3", "0b101", "0o17", "1e0x5", "~1", "1/2", "nan", "inf"]
+             "1e99999999999999999999", "0x0p5", "0x.0", "5e-3", "1@5", "1.0@-5", "1p3", "0x1b3", "0b101", "0o17", "1e0x5", "~1", "1/2", "nan", "inf",
+             # round 3: texts the lexer cuts in unexpected places (literal + suffix, `.` + ident, exponent sign as punct) and white space between the tokens
+             "1.e5", "1 .5e3", "1. 5", "0x1.8p-3", "0x1 .8 p -3", "_0x1.8p-3", "1e 5", "1e+ 5", "1_000.5", "1__0", "5 e-3", "1.5e+3", "1.5e+", "1.5e", "12e", "1.5.e3",
+             "0x1p+3", "0x1.p3", "0b2", "0o8", "1e5e5", "1.5 @ -3", "- 1.5", "+ 1.5", "-_1.5", "- _0x1p3", "1..5e3", "1.5ee3", "0x1e5", "0xep3", "9e", "00.50"]
 
 
 def gen_bad_float(rng):
@@ -613,6 +658,12 @@ def extra_phase(tier, seed, exes, oracle):
     def bump(k, n=1):
         hist[k] = hist.get(k, 0) + n
 
+    word = TEMPLATES_STATUS.split(" ", 1)[0]
+    bump("translator_c20_r3:LitTemplates:" + word)
+    res["samples"].append({"fragment": "coq/gen/LitTemplates.v (tools/translate_c20_r3.py from macros/src/parse/{int,float,ratio}.rs)",
+                           "status": TEMPLATES_STATUS,
+                           "tied_by": "C20_templates_int, C20_templates_bytes, C20_templates_float, C20_templates_ratio, C20_templates_thresholds"
+                           if word == "ok" else "correspondence run only (source not parsed; committed copy marked STALE)"})
     exe = exes.get("default")
     if exe is None or oracle is None:
         return res
